@@ -192,6 +192,14 @@ def check_escape_site(ctx: Ctx) -> None:
                 return "ESC(WORD)"
             return None
 
+        # the output lines: lists the loop only ever appends to (never rebinds). "A line has already been emitted" may be
+        # spelled as a latch (first_line) or as a test on such a list (len(lines) > 0, `if lines`, not lines ...)
+        from .term import _facts as _nonempty_facts
+
+        body_ = flow.loop_body_nodes(h)
+        appended = {d.var for x in body_ for d in flow.defs_at[x] if d.kind == "mutate" and isinstance(d.value, ast.Call)
+                    and isinstance(d.value.func, ast.Attribute) and d.value.func.attr == "append"}
+        out_lists = {v for v in appended if not any(d.var == v and d.kind != "mutate" for x in body_ for d in flow.defs_at[x])}
         res: dict[str, set] = {}
         for label, md, later in (("markdown, continuation line", True, True), ("plain text", False, True)):
             def atom(leaf: ast.AST, aliases: frozenset, md=md, later=later) -> bool | None:
@@ -200,6 +208,12 @@ def check_escape_site(ctx: Ctx) -> None:
                         return md
                     if leaf.id in facts.latches:
                         return (not facts.latches[leaf.id]) if later else facts.latches[leaf.id]
+                if isinstance(leaf, (ast.Name, ast.Compare, ast.Call)):
+                    t_, f_ = _nonempty_facts(leaf, True), _nonempty_facts(leaf, False)
+                    if len(t_) == 1 and t_ <= out_lists and not f_:
+                        return later       # true exactly when a line has been emitted
+                    if len(f_) == 1 and f_ <= out_lists and not t_:
+                        return not later
                 return None
 
             dec = Decider(prog, atom, value_leaf=value_leaf)
